@@ -108,20 +108,30 @@ func init() {
 		return map[string]int{"profile": profile, "n": n, "nodes": nodes, "L": L, "closes": closes, "faults": faults, "errmask": errmask, "order_schemes": 1, "fnth_max": 2}
 	}
 	dspCov := []string{"built", "resolved", "all_closed"}
-	const dspDesc = "world with disposable services (S0,S1,S3 and every auxiliary output have Close), real Build, scope tree, L symbolic + one exhaustive sweep of resolutions, then a symbolic sequence of Close calls on any node (repetitions allowed) and a final close of everything; optional fault plan (the k-th invocation of one constructor returns an error / nil / panics: during Build, scope creation or resolution) and symbolic mask of instances whose Close fails; close counters, the extent (which container Close) of every close, stamps and return values checked"
+	with := func(m map[string]int, kv ...any) map[string]int {
+		for i := 0; i+1 < len(kv); i += 2 {
+			m[kv[i].(string)] = kv[i+1].(int)
+		}
+		return m
+	}
+	const dspDesc = "world with disposable services (S0,S1,S3 and every auxiliary output have Close), real Build, scope tree, L symbolic + one exhaustive sweep of resolutions, then a symbolic sequence of Close calls on any node (repetitions allowed) and a final close of everything; optional fault plan (the k-th invocation of one constructor returns an error / nil / panics: during Build, scope creation or resolution) and symbolic mask of instances whose Close fails; options: tree=1 (one scope has two children), faults=2 (the context given to BuildWithContext is cancelled from inside a symbolic constructor), closepanic=1 (a symbolic mask of instances whose Close panics: only the order of the closes that happened is judged - nothing of an ancestor is closed while a descendant scope that was not itself cut short still holds open instances); after every Close call: everything owned in the subtree is closed and every scope of the subtree reports disposed, whatever the call returned; close counters, the extent (which container Close) of every close, stamps and return values checked"
 	properties = append(properties,
 		propertySpec{ID: "C10", Harnesses: []harnessSpec{
 			h("cont.H_Dispose", dsp(0, 2, 3, 1, 1, 0, 0), dsp(0, 2, 4, 1, 2, 0, 0), dspCov, 20, dspDesc),
 			h("cont.H_Dispose", dsp(2, 2, 3, 1, 1, 1, 0), dsp(2, 3, 3, 1, 1, 1, 0), append([]string{"scope_failed", "build_failed"}, dspCov...), 10, dspDesc),
 			h("cont.H_Dispose", dsp(1, 2, 3, 0, 1, 1, 0), dsp(0, 2, 3, 1, 1, 1, 0), append([]string{"build_failed"}, dspCov...), 0, dspDesc),
+			h("cont.H_Dispose", with(dsp(0, 2, 2, 0, 1, 2, 0)), with(dsp(0, 3, 3, 0, 1, 2, 0)), append([]string{"build_cancelled", "cancel_ignored"}, dspCov...), 10, dspDesc),
 		}},
 		propertySpec{ID: "C11", Harnesses: []harnessSpec{
 			h("cont.H_Dispose", dsp(0, 2, 3, 1, 1, 0, 0), dsp(0, 2, 4, 1, 2, 0, 0), dspCov, 20, dspDesc),
 			h("cont.H_Dispose", dsp(1, 3, 3, 0, 1, 0, 0), dsp(1, 3, 4, 1, 1, 0, 0), dspCov, 0, dspDesc),
+			h("cont.H_Dispose", with(dsp(0, 2, 4, 0, 1, 0, 0), "tree", 1, "closepanic", 1), with(dsp(0, 2, 4, 1, 2, 0, 0), "tree", 1, "closepanic", 1), dspCov, 10, dspDesc),
+			h("cont.H_Dispose", with(dsp(0, 2, 4, 0, 1, 0, 1), "tree", 1), with(dsp(0, 2, 4, 1, 2, 0, 1), "tree", 1), dspCov, 0, dspDesc),
 		}},
 		propertySpec{ID: "C12", Harnesses: []harnessSpec{
 			h("cont.H_Dispose", dsp(1, 2, 3, 1, 2, 0, 1), dsp(1, 3, 3, 1, 2, 0, 1), dspCov, 20, dspDesc),
 			h("cont.H_Dispose", dsp(0, 2, 3, 0, 1, 0, 1), dsp(0, 2, 4, 1, 2, 0, 1), dspCov, 0, dspDesc),
+			h("cont.H_Dispose", with(dsp(0, 2, 4, 0, 1, 0, 1), "tree", 1), with(dsp(0, 2, 4, 1, 2, 0, 1), "tree", 1), dspCov, 0, dspDesc),
 			h("cont.H_ValueDisposables", map[string]int{"order_schemes": 1}, map[string]int{"order_schemes": 2}, []string{"scope_closed"}, 10, "disposables that are values: 1..3 instances equal as interface values and 0..2 instances of an unhashable type owned by one scope (plus one by the root scope), optionally all failing: every one closed exactly once, one error per failure, no panic, repeated Close inert"),
 		}},
 	)
@@ -147,6 +157,7 @@ func init() {
 	properties = append(properties,
 		propertySpec{ID: "C17", Harnesses: []harnessSpec{
 			h("cont.H_Registry", map[string]int{"L": 2, "order_schemes": 1}, map[string]int{"L": 3, "order_schemes": 1}, []string{"rejected_add", "rejected_second_identity", "rejected_unimplemented_interface", "remove", "remove_keyed", "snapshot"}, 30, "history of L operations {Add directly, Add through a module, Remove, RemoveKeyed, Build} over a pool of two concrete types, an auxiliary type and an interface, keys {nil,k1}, group g1, six registration forms incl. multi-output ones that collide on their second identity, plus registrations with two As options one of which names an interface the service does not implement (must be rejected whole); after every step Contains / ContainsKeyed / Count / ToSlice vs a reference registry; a final Build must use exactly the registry (resolvability per identity, group sizes, no constructor of a removed singleton runs); every provider built on the way is probed again after the later edits"),
+			h("cont.H_Registry", map[string]int{"L": 3, "prefix": 1, "order_schemes": 1}, map[string]int{"L": 4, "prefix": 1, "order_schemes": 1}, []string{"rejected_add", "rejected_second_identity", "rejected_unimplemented_interface", "remove", "remove_keyed", "snapshot"}, 0, "(histories starting with Add, Build; the remaining operations symbolic) history of L operations {Add directly, Add through a module, Remove, RemoveKeyed, Build} over a pool of two concrete types, an auxiliary type and an interface, keys {nil,k1}, group g1, six registration forms incl. multi-output ones that collide on their second identity, plus registrations with two As options one of which names an interface the service does not implement (must be rejected whole); after every step Contains / ContainsKeyed / Count / ToSlice vs a reference registry; a final Build must use exactly the registry (resolvability per identity, group sizes, no constructor of a removed singleton runs); every provider built on the way is probed again after the later edits"),
 		}},
 	)
 	properties = append(properties,
@@ -196,6 +207,7 @@ func init() {
 		propertySpec{ID: "C13", Harnesses: []harnessSpec{
 			h("cont.H_Closed", map[string]int{"order_schemes": 2}, map[string]int{"order_schemes": 4}, []string{"close_node", "cancel_scope_ctx", "cancel_child_ctx"}, 20, closedDesc),
 			hcb, hc,
+			h("cont.H_Dispose", with(dsp(0, 2, 4, 0, 1, 0, 1), "tree", 1), with(dsp(0, 2, 4, 1, 2, 0, 1), "tree", 1), dspCov, 0, dspDesc),
 		}},
 	)
 	for i := range properties {
